@@ -32,7 +32,7 @@ EXHAUSTIVE = {"quick": False, "thorough": False}
 RULE = (
     "table stream: api {attr.s, define} x eq {unset,None,T,F} x unsafe_hash {unset,None,T,F} x frozen x frozen base x own "
     "__hash__ {none, def, =None} x own __eq__ x auto_detect {unset,T,F} x exception root/auto_exc {4} x cache_hash "
-    "(18 432 rows minus the excluded legacy rows; all of them in the thorough tier, a seeded sample of 3 500 in quick), then "
+    "(18 432 rows minus the excluded legacy rows; all of them in the thorough tier, a seeded sample of 2 500 in quick), then "
     "the same rows with seeded variation of the hash-vs-unsafe_hash spelling, cmp, init, own __ne__/__init__, slots, "
     "attrs.frozen, delegating own __hash__, a field, a plain class between frozen base and class, hashable / caching / plain "
     "bases; instance stream: hand-written chains around K1/K2 (12 shapes x slots of base x slots of subclass), all "
@@ -42,13 +42,18 @@ RULE = (
     "with <=3 fields, scripted ==-classes / hash codes / key function on {0,1,2}, 1-2 instances and histories of <=9 "
     "operations (hash / copy / deepcopy / pickle protocols 2-5 / evolve / field write), 30% of them scripted as hash, derive, "
     "write to the derived instance, hash both; non-trivial = a hash operation on a class with an attrs-generated hash, or a "
-    "table row that is not the default row (attr.s, nothing passed, no base); distinct = distinct JSON case. Multiple "
+    "table row that is not the default row (attr.s, nothing passed, no base); distinct = distinct JSON case. Reused "
+    "decorator objects (harness-only history, the model is independent of it): the object returned by attr.s(...) / "
+    "define(...) / frozen(...) is first applied to a priming class (own __eq__ / __ne__ / __hash__ def or None / "
+    "__init__, base object / frozen attrs / Exception / plain class with __hash__, with or without a field) and then to "
+    "the class under test -- every core row once more in the thorough tier (1 200 in quick), 35% of the varied rows, 12% "
+    "of the classes of random chains. Multiple "
     "inheritance rows of the table (modelled: a frozen class anywhere among the bases, in any order, freezes the class): "
     "the last class below a chain parent {none, plain, mutable attr.s, mutable define dict, frozen dict, frozen slotted, "
     "frozen through a plain class, frozen grandparent} and one or two further bases {plain mixin, mutable attrs dict / "
     "slotted, frozen attr.s / define dict / frozen-api dict / slotted, frozen base under a plain class, diamond through "
     "chain class 0 as plain / mutable / frozen}, listed before or after the parent, x 10 leaf variants (6 760 rows, all in "
-    "the thorough tier, 900 sampled in quick; at most one slotted lineage, CPython's layout rule). T3: for every "
+    "the thorough tier, 700 sampled in quick; at most one slotted lineage, CPython's layout rule). T3: for every "
     "generated chain of the instance streams and every varied table row with a field (every 10th in the quick tier, about "
     "400 cases, all in the thorough tier; non-exception chains with <= 3 fields) one `script` case: the chain is defined "
     "afresh, the real source text of the last class's own generated __hash__ -- and of its twin's, defined without "
@@ -248,6 +253,50 @@ def _define_sides(ns, side):
     return names
 
 
+PRIME_BASES = ["object", "frozen", "exc", "plain_hash"]
+
+
+def _prime_decorator(d, prime, ns, k):
+    """Harness-only history: the decorator OBJECT about to decorate class k is first applied to a priming class
+    (own __eq__ / __ne__ / __hash__ / __init__, a frozen or exception base, a field).  A decorator object must not
+    carry anything over from one class to the next, so the model is independent of this step; whatever the
+    priming application does or raises is ignored."""
+    base = prime.get("base", "object")
+    if base == "frozen":
+        if "_PF" not in ns:
+            ns["_PF"] = attr.s(frozen=True)(type("_PF", (object,), {}))
+        bname = "_PF"
+    elif base == "exc":
+        bname = "Exception"
+    elif base == "plain_hash":
+        if "_PH" not in ns:
+            ns["_PH"] = type("_PH", (object,), {"__hash__": lambda self: 11})
+        bname = "_PH"
+    else:
+        bname = "object"
+    lines = [f"class P{k}({bname}):"]
+    if prime.get("field"):
+        lines.append("    p = attr.ib()")
+    if prime.get("ownEq"):
+        lines += ["    def __eq__(self, other):", "        return self is other"]
+    if prime.get("ownNe"):
+        lines += ["    def __ne__(self, other):", "        return self is not other"]
+    oh = prime.get("ownHash", "no")
+    if oh == "func":
+        lines += ["    def __hash__(self):", "        return 5"]
+    elif oh == "noneVal":
+        lines.append("    __hash__ = None")
+    if prime.get("ownInit"):
+        lines += ["    def __init__(self, *args, **kwargs):", "        pass"]
+    if len(lines) == 1:
+        lines.append("    pass")
+    try:
+        exec("\n".join(lines), ns)  # noqa: S102
+        d(ns[f"P{k}"])
+    except BaseException:  # noqa: BLE001
+        pass
+
+
 def _build_chain(root, chain, register, side=(), side_first=False):
     """returns (kinds, classes or None, module, tag of the chain's key function). classes is None when a definition failed."""
     _BUILDS[0] += 1
@@ -288,7 +337,10 @@ def _build_chain(root, chain, register, side=(), side_first=False):
             if c["api"] != "plain":
                 deco = {"attrS": attr.s, "define": attrs.define, "frozen": attrs.frozen}[c["api"]]
                 try:
-                    cls = deco(**_kw(c))(cls)
+                    d = deco(**_kw(c))
+                    if c.get("prime"):
+                        _prime_decorator(d, c["prime"], ns, k)
+                    cls = d(cls)
                 except TypeError:
                     kinds.append("typeError")
                     return kinds, None, mod, key.tag
@@ -652,6 +704,13 @@ def _core_rows():
         [False, True], ["unset", "t", "f"], EXC_MODES, ["unset", "t"])
 
 
+def _rand_prime(rng):
+    """a priming class for the decorator object (harness-only); own __eq__/__ne__/__hash__ most of the time"""
+    return {"ownEq": rng.random() < 0.5, "ownNe": rng.random() < 0.3,
+            "ownHash": rng.choice(["no", "no", "func", "noneVal"]), "ownInit": rng.random() < 0.15,
+            "base": rng.choice(["object", "object", "frozen", "exc", "plain_hash"]), "field": rng.random() < 0.4}
+
+
 def _table_case(row, rng, vary):
     api, eq, uh, frozen, frozen_base, own_hash, own_eq, ad, (exc_base, auto_exc), cache = row
     c = cls_spec(api, eq=eq, unsafeHash=uh, frozen=frozen, ownHash=own_hash, ownEq=own_eq, autoDetect=ad,
@@ -681,6 +740,8 @@ def _table_case(row, rng, vary):
             c["ownHash"] = "delegate"
         if rng.random() < 0.3:
             c["fields"] = [fld("a", rng.choice(["t", "f", "key"]), rng.choice([None, True, False]))]
+        if rng.random() < 0.35:
+            c["prime"] = _rand_prime(rng)
     chain = [c]
     if frozen_base:
         chain = [cls_spec(rng.choice(["attrS", "define", "frozen"]) if vary else "attrS", frozen="t")] + chain
@@ -750,6 +811,8 @@ def _rand_inst_cls(rng, root):
         c["cacheHash"] = "t"
     if rng.random() < 0.3:
         c["getstateSetstate"] = rng.choice(["t", "t", "f", "pyNone"])
+    if rng.random() < 0.12:
+        c["prime"] = _rand_prime(rng)
     if rng.random() < 0.05:
         c["ownEq"] = True
     return c
@@ -1043,10 +1106,21 @@ def _mi_rows():
 
 def gen_cases(tier, rng):
     quick = tier == "quick"
+    # ---- reused decorator objects: every core row once more behind a priming class
+    def reuse_rows():
+        rows2 = list(_core_rows())
+        rng.shuffle(rows2)
+        for row in (rows2[:1200] if quick else rows2):
+            c = _table_case(row, rng, vary=False)
+            if c is not None:
+                c["chain"][-1]["prime"] = _rand_prime(rng)
+                yield c
+
+    yield from reuse_rows()
     # ---- multiple inheritance rows of the decision table
     mi = list(_mi_rows())
     rng.shuffle(mi)
-    yield from (mi[:900] if quick else mi)
+    yield from (mi[:700] if quick else mi)
     n_chain = [0]
 
     def want_script():
@@ -1057,12 +1131,12 @@ def gen_cases(tier, rng):
     # ---- class-level decision table
     rows = list(_core_rows())
     rng.shuffle(rows)
-    n_core = 3500 if quick else len(rows)
+    n_core = 2500 if quick else len(rows)
     for row in rows[:n_core]:
         c = _table_case(row, rng, vary=False)
         if c is not None:
             yield c
-    for row in (rows[n_core:n_core + 2800] if quick else rows * 3):
+    for row in (rows[n_core:n_core + 2200] if quick else rows * 3):
         c = _table_case(row, rng, vary=True)
         if c is not None:
             yield c
@@ -1096,7 +1170,7 @@ def gen_cases(tier, rng):
             if want_script() and _script_ok(case["chain"], None):
                 yield make_script_case(case["chain"], rng)
     # ---- random chains and histories
-    for _ in range(3400 if quick else 60000):
+    for _ in range(2800 if quick else 60000):
         root = rng.choice(ROOTS) if rng.random() < 0.12 else None
         yield from _inst_cases(rng, _rand_chain(rng), count=4 if quick else 8, root=root, script=want_script())
 
@@ -1141,6 +1215,7 @@ def dist(case, obs):
         "n_fields": sum(len(c["fields"]) for c in case["chain"]),
         "n_ops": len(case["ops"]),
         "exc_base": case["excBase"],
+        "primed": any(bool(c.get("prime")) for c in case["chain"]),
     }
     if case["ops"]:
         d["ops"] = "+".join(sorted({next(iter(op)) for op in case["ops"]}))
@@ -1150,6 +1225,14 @@ def dist(case, obs):
 
 
 def shrink(case):
+    for k, c in enumerate(case["chain"]):
+        if c.get("prime"):
+            c2 = {kk: v for kk, v in c.items() if kk != "prime"}
+            yield dict(case, chain=case["chain"][:k] + [c2] + case["chain"][k + 1:])
+            for pk, dv in (("ownEq", False), ("ownNe", False), ("ownHash", "no"), ("ownInit", False), ("base", "object"), ("field", False)):
+                if c["prime"].get(pk, dv) != dv:
+                    c3 = dict(c, prime=dict(c["prime"], **{pk: dv}))
+                    yield dict(case, chain=case["chain"][:k] + [c3] + case["chain"][k + 1:])
     side = case.get("side", [])
     for i in range(len(side)):
         rest = side[:i] + side[i + 1:]
